@@ -152,3 +152,61 @@ Theorem C03_path_table_ecma_order_refuted :
        nth_error (bfs start t) j = Some b -> key_le_ecma (rkey a) (rkey b)).
 Proof. exact PathTableProofs.ptable_order_ecma_refuted. Qed.
 End PathTableStatements.
+
+(* ---- the directory area, written and read back: Model/Master.v ---------------------------------------------------
+   master = the bytes of every directory extent of a plain ISO9660 image exactly as _write_directory_records emits them;
+   read = an independent mount-style reader that uses the bytes and the root pointer only.  For EVERY well-formed tree
+   (depth <= 7, names 1..221 bytes, strictly sorted, Pack invariant per directory): *)
+From PV.Base Require ListX.
+From PV.Model Require Master.
+From PV.Proofs Require MasterPack MasterImage MasterBfs MasterWf MasterDir MasterProofs MasterLayout MasterExamples.
+Section MasterStatements.
+Import PV.Base.Prim PV.Base.ListX PV.Gen.GenConst PV.Gen.GenFun PV.Model.Codec PV.Model.Pack PV.Model.PathTable PV.Model.Master.
+Import PV.Proofs.MasterPack PV.Proofs.MasterImage PV.Proofs.MasterBfs PV.Proofs.MasterWf PV.Proofs.MasterDir PV.Proofs.MasterProofs
+  PV.Proofs.MasterExamples.
+Local Open Scope Z_scope.
+
+Theorem C03_reader_recovers_the_mastered_tree dt t : length dt = 7%nat -> wf_tree t = true ->
+  exists img, master dt t = Some img /\
+              read (fuel_for t) img (root_extent t) (root_len t) = Some (view t).
+Proof. first [exact (@read_master) | apply (@read_master)]. Qed.
+
+Theorem C03_reader_recovers_the_tree_from_any_larger_image dt t img img' : length dt = 7%nat -> wf_tree t = true ->
+  master dt t = Some img -> ms_img_ok img' -> incl img img' ->
+  read (fuel_for t) img' (root_extent t) (root_len t) = Some (view t).
+Proof. first [exact (@read_master_frame) | apply (@read_master_frame)]. Qed.
+
+Theorem C03_directory_extents_are_exactly_the_directories dt t img : length dt = 7%nat -> wf_tree t = true -> master dt t = Some img ->
+  img = map (ms_chunk dt t (ms_DB t) (ms_FB t)) (ms_dir_positions t) /\
+  NoDup (ms_dir_positions t) /\
+  (forall p, In p (ms_dir_positions t) <-> ms_is_dir_at t p = true).
+Proof. first [exact (@master_chunks) | apply (@master_chunks)]. Qed.
+
+Theorem C03_directory_extents_disjoint dt t img : length dt = 7%nat -> wf_tree t = true ->
+  master dt t = Some img ->
+  (forall i j a b, i <> j -> nth_error img i = Some a -> nth_error img j = Some b ->
+     fst a + ms_cblocks a <= fst b \/ fst b + ms_cblocks b <= fst a) /\
+  (forall c, In c img ->
+     first_dir_extent t <= fst c /\
+     fst c + ms_cblocks c <= assign_end (first_dir_extent t) (ms_dtree t) /\
+     0 < ms_cblocks c /\ zlen (snd c) = ms_cblocks c * BS).
+Proof. first [exact (@master_dirs_disjoint) | apply (@master_dirs_disjoint)]. Qed.
+
+Theorem C03_dot_and_dotdot_records dt t img : length dt = 7%nat -> wf_tree t = true ->
+  master dt t = Some img ->
+  forall p, ms_is_dir_at t p = true ->
+  exists bytes r1 rest1 r2 rest2 pbytes,
+    In (ms_ext_at (ms_DB t) p, bytes) img /\ zlen bytes = ms_dlen_at t p /\
+    dec_dr bytes = Some (r1, rest1) /\ dec_dr rest1 = Some (r2, rest2) /\
+    Codec.ident r1 = [0] /\ flags r1 = 2 /\
+    extent r1 = ms_ext_at (ms_DB t) p /\ data_len r1 = zlen bytes /\
+    Codec.ident r2 = [1] /\ flags r2 = 2 /\
+    ms_is_dir_at t (removelast p) = true /\
+    In (extent r2, pbytes) img /\ data_len r2 = zlen pbytes /\
+    extent r2 = ms_ext_at (ms_DB t) (removelast p) /\ data_len r2 = ms_dlen_at t (removelast p).
+Proof. first [exact (@master_dot_dotdot) | apply (@master_dot_dotdot)]. Qed.
+
+Example C03_master_nonvacuous : wf_tree ms_ex_tree = true /\ fuel_for ms_ex_tree = 5%nat /\
+                   ms_dlen_at ms_ex_tree [0%nat] = 4096.
+Proof. exact ms_ex_wf. Qed.
+End MasterStatements.
